@@ -155,17 +155,20 @@ struct BT<SimSbx>
     return sb.invoke_sandbox_function(g_multi, owner, a, b, times).UNSAFE_unverified();
   }
   static void* fn_identity(rlbox::rlbox_sandbox<SimSbx>&) { return libs()[0][0].host; }
+  static const char* fn_name() { return "g_multi"; }
 };
 template<>
 struct BT<NoopSbx>
 {
   static constexpr bool foreign = false;
   static void create(rlbox::rlbox_sandbox<NoopSbx>& sb) { sb.create_sandbox(); }
+  static inline bool nameless = false; // this run invokes through the bare function pointer, without a name
   template<class O>
   static long multi(rlbox::rlbox_sandbox<NoopSbx>& sb, O& owner, long a, unsigned b, int times)
   {
-    return sb.template INTERNAL_invoke_with_func_ptr<decltype(g_multi)>("g_multi", reinterpret_cast<void*>(&g_multi), owner, a, b, times).UNSAFE_unverified();
+    return sb.template INTERNAL_invoke_with_func_ptr<decltype(g_multi)>(nameless ? nullptr : "g_multi", reinterpret_cast<void*>(&g_multi), owner, a, b, times).UNSAFE_unverified();
   }
+  static const char* fn_name() { return nameless ? nullptr : "g_multi"; }
   static void* fn_identity(rlbox::rlbox_sandbox<NoopSbx>&) { return reinterpret_cast<void*>(&g_multi); }
 };
 
@@ -430,7 +433,7 @@ struct Runner
         if (h.in != e.in || h.kind != e.kind || h.state != e.state)
           return false;
         if (e.kind == 0)
-          return h.name && strcmp(h.name, "g_multi") == 0 && h.ptr == BT<Sbx>::fn_identity(*sb[(size_t)e.s]);
+          return (BT<Sbx>::fn_name() ? (h.name && strcmp(h.name, "g_multi") == 0) : h.name == nullptr) && h.ptr == BT<Sbx>::fn_identity(*sb[(size_t)e.s]);
         return h.name == nullptr && h.ptr == keys[(size_t)e.fn];
       };
 #if defined(TR_HOOKS_IN_ONLY) || defined(TR_HOOKS_OUT_ONLY)
@@ -524,7 +527,7 @@ struct Runner
             c.violate("C19", "timing_record_out_of_simulated_range@tree", "time %lld (simulated span %lld ns; every crossing spans at least two clock readings)", (long long)rec.time, (long long)g_clock_now);
             break;
           }
-          if (is_inv ? (!rec.name || strcmp(rec.name, "g_multi") != 0 || rec.ptr != BT<Sbx>::fn_identity(*sb[(size_t)s])) : (rec.ptr != keys[(size_t)s * 2] && rec.ptr != keys[(size_t)s * 2 + 1])) {
+          if (is_inv ? ((BT<Sbx>::fn_name() ? (!rec.name || strcmp(rec.name, "g_multi") != 0) : rec.name != nullptr) || rec.ptr != BT<Sbx>::fn_identity(*sb[(size_t)s])) : (rec.ptr != keys[(size_t)s * 2] && rec.ptr != keys[(size_t)s * 2 + 1])) {
             c.violate("C19", "timing_record_wrong_identity@tree", "a %s record of sandbox #%d", is_inv ? "INVOKE" : "CALLBACK", s);
             break;
           }
@@ -600,7 +603,7 @@ struct TransitionWorld : World
     o.a[2] = (int64_t)r.below(3);
     o.a[3] = r.chance(1, 6) ? 0 : (int64_t)r.range(1, 30);
     o.a[4] = r.chance(2, 3) ? 0 : (int64_t)r.range(1, 40);
-    o.a[5] = (int64_t)r.below(1000) | ((int64_t)r.below(16) << 8);
+    o.a[5] = (int64_t)r.below(256) | ((int64_t)r.below(16) << 8) | ((int64_t)r.below(4) << 12);
     p.ops.push_back(o);
     return p;
   }
@@ -624,8 +627,13 @@ struct TransitionWorld : World
       Runner<SimSbx> r(c, nsbx);
       r.run(p);
     } else {
+      // every fourth run on the real backend invokes through the bare function pointer, without a name
+      BT<NoopSbx>::nameless = ((uint64_t)p.ops[0].a[5] >> 12) % 4 == 3;
+      if (BT<NoopSbx>::nameless)
+        c.probe("invocation_without_a_function_name");
       Runner<NoopSbx> r(c, nsbx);
       r.run(p);
+      BT<NoopSbx>::nameless = false;
     }
     run_end();
   }
